@@ -37,6 +37,7 @@ def run(index, rep):
     rep.guard(pin, index, rep, flow)
     rep.guard(r3, index, rep, flow)
     rep.guard(skip, index, rep)
+    rep.guard(herd_siblings, index, rep)
     rep.guard(minimum, index, rep)
     from .lanes import lane_rule
     rep.guard(lane_rule, index, rep, "C03.ARGLANE", ("feed", "biofuel"), 40, "feed and biofuel crossed at a call")
@@ -360,6 +361,50 @@ def herd_feeds(index, fn):
                     if "available_feed" in b:
                         out.append((c, hv.expr(b["available_feed"])))
     return out
+
+
+def herd_siblings(index, rep):
+    """the herd simulations of the three rounds are the same model run on different feed: every construction binds the same parameters of
+    CalculateFeedAndMeat, and all but the feed (and grass object) with the same expressions - a round whose herd is built without the scenario
+    constants (head-count overrides, meat per animal) is a different herd"""
+    from .core import bind_args
+    rule = "C03.HERD"
+    cfm = index.func(ANIMALS, "CalculateFeedAndMeat.__init__")
+    sites = []
+    for q in ("Parameters.init_meat_and_dairy_and_feed_from_breeding_and_subtract_feed_biofuels_round1", "Parameters.compute_parameters_second_round",
+              "Parameters.compute_parameters_third_round"):
+        fn = index.func(PARAMS, q)
+        methods = index.methods(PARAMS, "Parameters")
+        inl = Inliner(fn, max_depth=0)
+        found = [c for c in walk_no_nested(fn) if isinstance(c, ast.Call) and dotted(c.func) == "CalculateFeedAndMeat"]
+        for c in walk_no_nested(fn):       # one construction-helper level down
+            if isinstance(c, ast.Call) and isinstance(c.func, ast.Attribute) and isinstance(c.func.value, ast.Name) and c.func.value.id == "self" \
+                    and c.func.attr in methods and methods[c.func.attr] is not fn:
+                found += [x for x in walk_no_nested(methods[c.func.attr]) if isinstance(x, ast.Call) and dotted(x.func) == "CalculateFeedAndMeat"]
+        seen = set()
+        for c in found:
+            if id(c) in seen:
+                continue
+            seen.add(id(c))
+            b = bind_args(c, cfm)
+            sites.append((q.split(".")[1], c, {k_: norm_src(v_) for k_, v_ in b.items()}))
+    if len(sites) < 3:
+        raise AnalysisError(f"only {len(sites)} herd constructions found (expected one per round)")
+    keysets = [frozenset(b) for _, _, b in sites]
+    majority = max(set(keysets), key=keysets.count)
+    for q, c, b in sites:
+        missing = sorted(majority - set(b))
+        extra = sorted(set(b) - majority)
+        rep.check(not missing and not extra, rule, f"{q}: herd built with the same inputs as in the other rounds",
+                  f"this round's herd simulation is constructed without {missing or ''}{' and with extra ' + str(extra) if extra else ''}: the rounds simulate "
+                  "different herds (e.g. head-count overrides of the scenario reach some rounds only)", loc=loc(PARAMS, c))
+    for p_ in sorted(majority):
+        if "feed" in p_ or "grass" in p_:
+            continue
+        vals = {b[p_].replace("constants_for_params", "constants_inputs") for _, _, b in sites if p_ in b}
+        rep.check(len(vals) == 1, rule, f"herd parameter {p_}: same value in every round", f"the rounds pass different {p_}: {sorted(vals)}",
+                  loc=loc(PARAMS, sites[0][1]))
+    rep.require_min(rule, 4)
 
 
 def bump_slots(index):
